@@ -12,18 +12,21 @@ Open Scope N_scope.
 Definition e_noequals := Eval vm_compute in b "no equals on line".
 Definition e_toolong := Eval vm_compute in b "bufio.Scanner: token too long".
 
+(* linear-time reversal (List.rev is quadratic, and lines of 64 KiB are in scope) *)
+Definition frev (l : bstr) : bstr := rev_append l [].
+
 (* ---- bufio.ScanLines ---- *)
 (* raw lines: the byte runs between '\n's; a final run without '\n' is a line
    only when it is not empty *)
 Fixpoint raw_lines (cur : bstr) (s : bstr) : list bstr :=   (* [cur] reversed *)
   match s with
-  | [] => match cur with [] => [] | _ => [rev cur] end
-  | c :: r => if c =? 10 then rev cur :: raw_lines [] r else raw_lines (c :: cur) r
+  | [] => match cur with [] => [] | _ => [frev cur] end
+  | c :: r => if c =? 10 then frev cur :: raw_lines [] r else raw_lines (c :: cur) r
   end.
 (* dropCR *)
 Definition drop_cr (l : bstr) : bstr :=
-  match rev l with
-  | c :: r => if c =? 13 then rev r else l
+  match frev l with
+  | c :: r => if c =? 13 then frev r else l
   | [] => l
   end.
 (* bufio.MaxScanTokenSize: a line whose bytes before the '\n' fill the 64 KiB buffer is ErrTooLong *)
@@ -85,13 +88,13 @@ Fixpoint trim_right_rev (fuel : nat) (rs : bstr) : bstr :=
   | S f => match space_suffix rs with O => rs | k => trim_right_rev f (drop k rs) end
   end.
 Definition trim_space (s : bstr) : bstr :=
-  let l := trim_left (length s) s in rev (trim_right_rev (length l) (rev l)).
+  let l := trim_left (length s) s in frev (trim_right_rev (length l) (frev l)).
 
 (* strings.Index(line, "=") *)
 Fixpoint split_eq (pre : bstr) (s : bstr) : option (bstr * bstr) :=   (* [pre] reversed *)
   match s with
   | [] => None
-  | c :: r => if c =? 61 then Some (rev pre, r) else split_eq (c :: pre) r
+  | c :: r => if c =? 61 then Some (frev pre, r) else split_eq (c :: pre) r
   end.
 
 Definition is_comment (l : bstr) : bool :=
